@@ -79,13 +79,13 @@ void harness(void)
 	reg_put('z', "s/L/M/", 0);
 	/* the address */
 	form = symx_u8("form");
-	symx_assume(form < 18);
+	symx_assume(form < 21);
 	form = symx_conc(form);
 	N = symx_u8("N");
 	M = symx_u8("M");
 	symx_assume(N <= NL + 1 && M <= NL + 1);
 	N = symx_conc(N);
-	M = form >= 11 ? symx_conc(M) : 0;
+	M = form >= 11 ? symx_conc(M) : 0;	/* second number / offset */
 	switch (form) {
 	case 0: addr[0] = 0; a1 = a2 = mcur; break;
 	case 1: sprintf(addr, "%d", N); a1 = a2 = N; naddr = 1; break;
@@ -105,6 +105,9 @@ void harness(void)
 	case 15: sprintf(addr, "%d,$", N); a1 = N; a2 = mn; naddr = 2; break;
 	case 16: sprintf(addr, ".,+%d", N); a1 = mcur; a2 = mcur + N; naddr = 2; break;
 	case 17: strcpy(addr, "0"); a1 = a2 = 0; naddr = 1; break;
+	case 18: symx_assume(N >= 1 && N <= NL); sprintf(addr, "/L%d/+%d", N, M); a1 = a2 = msearch(N, 1); a1 = a2 = a1 ? a1 + M : -9; naddr = 1; break;
+	case 19: sprintf(addr, "'a+%d", M); a1 = a2 = marka >= 0 ? marka + 1 + M : -9; naddr = 1; break;
+	case 20: symx_assume(N >= 1 && N <= NL); sprintf(addr, "1,?L%d?+%d", N, M); a1 = 1; a2 = msearch(N, -1); a2 = a2 ? a2 + M : -9; naddr = 2; break;
 	}
 	/* the command */
 	c = symx_u8("cmd");
